@@ -77,7 +77,7 @@ type rsDgram struct {
 	cuts    [][]rsFrag
 	injs    []rsInj
 	df      bool // its fragments carry the don't-fragment bit as well (RFC 791 copies the flag into every fragment)
-	lastDel int // seq of the last delivery (0 = none)
+	lastDel int  // seq of the last delivery (0 = none)
 	ndel    int
 	ident   uint16
 }
